@@ -51,7 +51,7 @@ pub fn all_requests(c: &Ctx) -> Vec<Req> {
         r("brc20_mine", "0", json!([0, c.ts])),
         r("brc20_deploy", "S", json!({"from_pkscript": pk, "data": hx(&crate::asm::s_initcode()), "timestamp": c.ts, "hash": c.hash, "tx_idx": c.idx, "inscription_id": "req-deploy", "inscription_byte_len": DEFAULT_LEN, "op_return_tx_id": z})),
         r("brc20_call", "set", json!({"from_pkscript": pk, "contract_address": s, "data": hx(&crate::asm::s_set(0, 1, 1, [1, 0, 0, 0])), "timestamp": c.ts, "hash": c.hash, "tx_idx": c.idx, "inscription_id": "req-call", "inscription_byte_len": DEFAULT_LEN, "op_return_tx_id": z})),
-        r("brc20_call", "by-inscription", json!({"from_pkscript": pk, "contract_inscription_id": "i1e0", "data": "0x0600", "timestamp": c.ts, "hash": c.hash, "tx_idx": c.idx, "inscription_id": "req-call2", "inscription_byte_len": DEFAULT_LEN, "op_return_tx_id": z})),
+        r("brc20_call", "by-inscription", json!({"from_pkscript": pk, "contract_inscription_id": crate::world::s_insc(), "data": "0x0600", "timestamp": c.ts, "hash": c.hash, "tx_idx": c.idx, "inscription_id": "req-call2", "inscription_byte_len": DEFAULT_LEN, "op_return_tx_id": z})),
         r("brc20_transact", "nonce0", json!({"raw_tx_data": raw0, "timestamp": c.ts, "hash": c.hash, "tx_idx": c.idx, "inscription_id": "req-t0", "inscription_byte_len": DEFAULT_LEN, "op_return_tx_id": z})),
         r("brc20_transact", "nonce1", json!({"raw_tx_data": raw1, "timestamp": c.ts, "hash": c.hash, "tx_idx": c.idx, "inscription_id": "req-t1", "inscription_byte_len": DEFAULT_LEN, "op_return_tx_id": z})),
         r("brc20_deposit", "ordi", json!({"to_pkscript": pk, "ticker": "ordi", "amount": "0x5", "timestamp": c.ts, "hash": c.hash, "tx_idx": c.idx, "inscription_id": "req-dep"})),
@@ -79,7 +79,7 @@ pub fn all_requests(c: &Ctx) -> Vec<Req> {
         // ---- reads ----
         r("brc20_version", "", json!([])),
         r("brc20_balance", "ordi", json!([pk, "ordi"])),
-        r("brc20_getTxReceiptByInscriptionId", "known", json!(["i1e0"])),
+        r("brc20_getTxReceiptByInscriptionId", "known", json!([crate::world::s_insc()])),
         r("brc20_getInscriptionIdByTxHash", "known", json!([c.known_tx])),
         r("brc20_getInscriptionIdByContractAddress", "S", json!([s])),
         r("eth_blockNumber", "", json!([])),
